@@ -377,6 +377,39 @@ template <int N> static void qr_block_case(vr::rng &g, int rows, int cols, int o
     } else o.i("solved", 0).i("e_opt", -30000).i("e_x", -30000).i("cond", md(cnd));
     put(o);
 }
+// QR::solve through the strided entry point on a sub-matrix view of a larger array (leading dimension ld > size,
+// as amgcl/solver/bicgstabl.hpp uses it): the solution must be the least-squares / minimum-norm solution of the
+// view, and no element of the surrounding array may change.  off: offset of the view's (0,0) in the array.
+template <class T> static void qr_view_case(vr::rng &g, int rows, int cols, int order, int pad) {
+    const int lead = (order == 0 ? cols : rows) + pad;                 // row major: row_stride = ld, col major: col_stride = ld
+    const int rs = order == 0 ? lead : 1, cs = order == 0 ? 1 : lead;
+    const int lines = (order == 0 ? rows : cols) + 2;                // one spare line before and after the view
+    const int off = lead + (pad > 1 ? 1 : 0);
+    std::vector<T> W((size_t)lines * lead + 2);
+    for (auto &v : W) v = qrt<T>::mk(g);                             // the surrounding array holds live data
+    std::vector<char> inview(W.size(), 0);
+    dmat D(rows, cols);
+    for (int i = 0; i < rows; ++i) for (int j = 0; j < cols; ++j) { size_t k = off + (size_t)i * rs + (size_t)j * cs; inview[k] = 1; D(i, j) = qrt<T>::up(W[k]); }
+    std::vector<T> W0(W), b(rows), x(cols, T(0));
+    for (auto &v : b) v = qrt<T>::mk(g);
+    dvec bd(rows); for (int i = 0; i < rows; ++i) bd[i] = qrt<T>::up(b[i]);
+    ld cnd = cond2(D);
+    vr::obj o; o.str("k", "qrview").str("vt", qrt<T>::name()).i("rows", rows).i("cols", cols).i("order", order).i("ld", lead).i("pad", pad);
+    if (cnd < 1e6L) {
+        amgcl::detail::QR<T> qr;
+        qr.solve(rows, cols, rs, cs, W.data() + off, b.data(), x.data(), false);
+        bool outside = true;
+        for (size_t k = 0; k < W.size(); ++k) if (!inview[k] && std::memcmp(&W[k], &W0[k], sizeof(T)) != 0) outside = false;
+        dvec xd(cols); for (int j = 0; j < cols; ++j) xd[j] = qrt<T>::up(x[j]);
+        dvec ref = eigen_lsq(D, bd); dvec rr = vd::sub(vd::mul(D, xd), bd); ld fa = vd::fro(D);
+        ld e_opt = rows >= cols ? vd::nrm2(vd::mul(vd::adjoint(D), rr)) / std::max((ld)1e-300L, fa * (fa * vd::nrm2(xd) + vd::nrm2(bd)))
+                                : vd::nrm2(rr) / std::max((ld)1e-300L, fa * vd::nrm2(xd) + vd::nrm2(bd));
+        ld e_x = vd::nrm2(vd::sub(xd, ref)) / std::max((ld)1e-300L, cnd * std::max(vd::nrm2(ref), (ld)1e-30L));
+        if (!vd::all_finite(xd)) { e_opt = 1e30L; e_x = 1e30L; }
+        o.i("solved", 1).i("e_opt", md(e_opt)).i("e_x", md(e_x)).i("cond", md(cnd)).b("outside", outside);
+    } else o.i("solved", 0).i("e_opt", -30000).i("e_x", -30000).i("cond", md(cnd)).b("outside", true);
+    put(o);
+}
 static void mode_qr(uint64_t seed, bool th) {
     vr::rng g(seed + 1650);
     int smax = 12;
@@ -389,6 +422,13 @@ static void mode_qr(uint64_t seed, bool th) {
             if (cls != 4 || th) qr_case<std::complex<double>>(g, rows, cols, order, cls);
         }
         if (rows <= 4 && cols <= 4) { qr_block_case<2>(g, rows, cols, order); if (rows <= 3 && cols <= 3) qr_block_case<3>(g, rows, cols, order); }
+    }
+    // sub-matrix views: square, tall and wide, both orders, real and complex
+    int vmax = th ? 8 : 6;
+    for (int rows = 1; rows <= vmax; ++rows) for (int cols = 1; cols <= vmax; ++cols) for (int order = 0; order < 2; ++order) for (int pad = 0; pad <= 3; ++pad) {
+        if (!th && pad == 2 && rows != cols) continue;
+        qr_view_case<double>(g, rows, cols, order, pad);
+        qr_view_case<std::complex<double>>(g, rows, cols, order, pad);
     }
 }
 
